@@ -187,7 +187,9 @@ func (ip *Inode) Resize(atxn *alloctxn.AllocTxn, sz uint64) bool {
 	ip.WriteInode(atxn)
 	if newSz < oldsz {
 		if ip.shrinkFits(atxn, oldsz-newSz) {
-			ip.Shrink(atxn)
+			// the shrink may still run out of journal space a few blocks before
+			// the end; the caller must then finish it in the background
+			doshrink = ip.Shrink(atxn)
 			util.DPrintf(1, "small file delete inside trans\n")
 		} else {
 			doshrink = true
